@@ -74,6 +74,119 @@ def sym_iteration(ck, u, f):
     ck.ob('richardson-form', key, f.where(L), not dets, '; '.join(dets))
 
 
+def ip_calls(f):
+    """calls of the solver's inner-product functor: inner_product(a, b)"""
+    out = []
+    for n in f.nodes.values():
+        if n['k'] == 'call' and n.get('op') == '()' and n.get('obj') is not None and len(n.get('a', [])) == 2:
+            o = unwrap(n['obj'])
+            if o is not None and o['k'] == 'mem' and o['n'] == 'inner_product':
+                out.append(n)
+    return out
+
+
+def single_def(f, d):
+    defs = [v['init'] for n in f.nodes.values() if n['k'] == 'decl' for v in n['v'] if v['d'] == d and v.get('init') is not None]
+    asg = [n for n in f.nodes.values() if n['k'] == 'bin' and n['op'] in ('=', '+=', '-=', '*=', '/=') and unwrap(n['x'])['k'] == 'ref' and unwrap(n['x'])['d'] == d]
+    return defs[0] if len(defs) == 1 and not asg else None
+
+
+def rule_conj(ck, u, name, f):
+    """inner_product(x, y) is conjugate-linear in y (C07).  Two consequences the defining formulas of the methods rely on:
+    (a) a fixed shadow vector (never written inside the iteration loop) that is paired with the varying vectors is the conjugated,
+        i.e. second, argument: rho = r^H_shadow r = <r, r_shadow>;
+    (b) a projection coefficient <a, b> / <c, c> (or / norm(c)^2) - the minimiser of ||a' - w c|| - has the direction c as the second
+        argument of its numerator: w = (c^H a')/(c^H c) = <a', c>/<c, c>, as in the Gram-Schmidt projections <w, v_k> of the GMRES family."""
+    an = Analyzer([u])
+    key = 'amgcl::solver::' + name
+    loops = [n for n in f.nodes.values() if n['k'] in ('for', 'while') and n.get('c') is not None and 'maxiter' in show(n['c'])]
+    ips = ip_calls(f)
+    if not ips:
+        return
+    dets = []
+    if loops:
+        L = min(loops, key=lambda n: n['i'])
+        inloop = {n['i'] for n in walk(L)}
+        written = set()
+        for n in walk(L):
+            if n['k'] != 'call':
+                continue
+            pr = prim_name(n)
+            if pr is not None:
+                written.add(an.expr_root(f, n['a'][PRIMS[pr][1]]))
+            elif n.get('m') == 'apply' and len(n.get('a', [])) == 2:
+                written.add(an.expr_root(f, n['a'][1]))
+            elif n.get('f') == 'amgcl::preconditioner::spmv' and len(n.get('a', [])) == 6:
+                written.add(an.expr_root(f, n['a'][4]))
+                written.add(an.expr_root(f, n['a'][5]))
+        for c in ips:
+            if c['i'] not in inloop:
+                continue
+            ra, rb = an.expr_root(f, c['a'][0]), an.expr_root(f, c['a'][1])
+            if ra is None or rb is None or ra == rb:
+                continue
+            if ra[0] == 'this' and ra not in written and rb in written:
+                dets.append((c, 'the fixed shadow vector `%s` is the first (not conjugated) argument of %s at %s; paired with the varying `%s` it must be the conjugated second argument '
+                                '(<r, r_shadow> = r_shadow^H r)' % (ra[-1], 'inner_product', f.where(c), rb[-1])))
+    # (b) projection quotients
+    def as_ip(e, depth=0):
+        e = unwrap(e)
+        if e is None:
+            return None
+        if e['k'] == 'call' and e in ips:
+            return e
+        if e['k'] == 'ref' and depth < 3:
+            i = single_def(f, e['d'])
+            return as_ip(i, depth + 1) if i is not None else None
+        return None
+
+    def norm_arg(e, depth=0):
+        e = unwrap(e)
+        if e is None:
+            return None
+        if e['k'] == 'call' and e.get('m') == 'norm' and len(e.get('a', [])) == 1:
+            return an.expr_root(f, e['a'][0])
+        if e['k'] == 'ref' and depth < 3:
+            i = single_def(f, e['d'])
+            return norm_arg(i, depth + 1) if i is not None else None
+        return None
+    for n in f.nodes.values():
+        if n['k'] != 'bin' or n['op'] != '/':
+            continue
+        num = as_ip(n['x'])
+        if num is None:
+            continue
+        ra, rb = an.expr_root(f, num['a'][0]), an.expr_root(f, num['a'][1])
+        if ra is None or rb is None or ra == rb:
+            continue
+        den = unwrap(n['y'])
+        direction = None
+        dip = as_ip(den)
+        if dip is not None:
+            da, db = an.expr_root(f, dip['a'][0]), an.expr_root(f, dip['a'][1])
+            if da == db:
+                direction = da
+        elif den is not None and den['k'] == 'bin' and den['op'] == '*':
+            x, y = norm_arg(den['x']), norm_arg(den['y'])
+            if x is not None and x == y:
+                direction = x
+        if direction is None or direction not in (ra, rb):
+            continue
+        if direction != rb:
+            dets.append((num, 'the projection coefficient at %s is <%s, %s> / <%s, %s>: the direction `%s` must be the conjugated second argument of the numerator '
+                              '(w = (c^H a)/(c^H c) = <a, c>/<c, c>); as written the coefficient is the complex conjugate of the minimiser' % (
+                                  f.where(n), ra[-1], rb[-1], direction[-1], direction[-1], direction[-1])))
+    seen = set()
+    k = 0
+    for c, msg in dets:
+        if c['i'] in seen:
+            continue
+        seen.add(c['i'])
+        k += 1
+        ck.ob('conj-consistency', '%s|%s' % (key, '%s:%s' % (show(c['a'][0]).strip('*'), show(c['a'][1]).strip('*'))), f.where(c), False, msg)
+    ck.ob('conj-consistency', key, f.where(), True, '', trivial=not ips)
+
+
 def main(tier):
     ck = Check('C05', tier, 'C05 (clauses): Richardson iteration form, solution / residual lock-step of CG, BiCGStab, IDR(s), per-solve re-initialisation of the recurrence state.')
     T = os.path.join(ir.VERIF, 'tus')
@@ -82,6 +195,8 @@ def main(tier):
     units = ir.run_units(specs, 'C05')
     ck.add_units(units, specs)
     ck.rule('richardson-form', 'one pass of the iteration loop of solver::richardson maps (x, r = f - A x) to (x + prm.damping * P r, f - A x_new) - symbolic execution over the backend primitives', 1)
+    ck.rule('conj-consistency', 'inner products are conjugate-linear in the second argument: a fixed shadow vector paired with varying vectors is the second argument, and a projection '
+                                'coefficient <a, b> / <c, c> has its direction c as the second argument of the numerator (complex systems get the defining coefficients, not their conjugates)', 7)
     ck.rule('B5.lock-step', 'cg, bicgstab, idrs: every x += c D is paired with a residual update -c V where V is the image of D under the (side-dependent) preconditioned operator', 3)
     ck.rule('B6.smoothing-siblings', 'idrs: the residual-smoothing block after the inner update and the one after the omega step are the same code', 1)
     seen = set()
@@ -92,6 +207,7 @@ def main(tier):
                 c01.rule_lockstep(ck, name, f)
             if name == 'richardson':
                 sym_iteration(ck, u, f)
+            rule_conj(ck, u, name, inline.expand(f, inline.same_class_helper(keep=('norm', 'operator()'))))
         an = Analyzer([u])
         c15.rule_B(ck, an, {uname: u}, only=lambda f: f.cls.startswith('amgcl::solver::') and f.cls.split('::')[-1] in c01.SOLVERS, floor=8)
     missing = [s for s in c01.SOLVERS if s not in seen]
